@@ -682,7 +682,9 @@ def apply(ctx: Ctx, call) -> None:
         op = build_op(name, param)
         hs = [w.h for w in ws]
         via = ctx.calls % 3
-        md = {"meta": {"k": [ctx.calls, "é"], "s": name}} if sc.extra.get("metadata") and via != 2 else {}
+        # scalar values that Python's == conflates (true/1/1.0, false/0/0.0) rotate through the nodes of one program
+        md = ({"meta": {"k": [ctx.calls, "é"], "s": name, "b": (True, 1, 1.0)[(ctx.calls // 3) % 3], "z": (0, False, 0.0)[(ctx.calls // 3 + ctx.calls) % 3]}}
+              if sc.extra.get("metadata") and via != 2 else {})
         if via == 0:
             n = b.add_op(op, *hs, **({"metadata": md["meta"]} if md else {}))
         elif via == 1:
